@@ -770,7 +770,6 @@ func (c06) behindAuth(sc core.Scenario, r *core.R) {
 	r.Sample(map[string]interface{}{"scenario": where})
 }
 
-
 // staleReverseCancel: client-side handlers of reverse calls are still running (they ignore their context)
 // when the connection breaks and is re-established; the server makes new reverse calls on the new
 // connection (numbered from 1 again), the old handlers finish, and then the new reverse calls are
